@@ -44,8 +44,7 @@ pub fn classify(ctx: &mut Ctx, spec: &FSpec, p: &P) {
             _ => ctx.class("object_image_length_many"),
         }
     }
-    let k = if spec.op == 4 { 4 } else { spec.op };
-    ctx.class(["op_image_single", "op_image_composite", "op_image_spider_only", "op_image_with_scalar_and_isolated_node", "op_image_mixed"][k as usize]);
+    ctx.class(["op_image_single", "op_image_composite", "op_image_spider_only", "op_image_with_scalar_and_isolated_node", "op_image_on_shared_boundary", "op_image_mixed"][spec.op as usize]);
     if !acyclic(&node_succs(p)) {
         ctx.class("cyclic_diagram");
     }
@@ -100,13 +99,48 @@ impl C12 {
                 }
             }
         }
+        // the lax trait also accepts an argument that still carries pending unifications: it is the image of
+        // the quotiented argument
+        {
+            let px = explode(p);
+            if !px.q.is_empty() {
+                ctx.class("lax_argument_with_pending_unifications");
+            }
+            let lxp = to_lax(&px);
+            let inp = || json!({"functor": format!("{:?}", spec), "f": show_lax(&px)});
+            if let Some(img) = lib(ctx, "lax::Functor::map_arrow(dyn)", "pending_argument", &inp, || lfun.map_arrow(&lxp)) {
+                if let Some(pl) = walk_lax(ctx, "lax::Functor::map_arrow(dyn)", "pending_argument", &img, &inp) {
+                    match pl.strict() {
+                        Ok((got, _)) => {
+                            let ty = got.src_type() == want.src_type() && got.tgt_type() == want.tgt_type();
+                            if ctx.check(ty, "lax::Functor::map_arrow(dyn)/type/value/pending_argument", || json!({"input": inp(), "observed": show(&got)})) {
+                                expect_iso(ctx, "lax::Functor::map_arrow(dyn)", "generator-wise-substitution", "pending_argument", &got, &want, &inp);
+                            }
+                        }
+                        Err(_) => {
+                            ctx.check(false, "lax::Functor::map_arrow(dyn)/quotientable/value/pending_argument", || json!({"input": inp()}));
+                        }
+                    }
+                }
+            }
+        }
         // deprecated shim lax::functor::define_map_arrow = dyn_functor::define_map_arrow
         {
             #[allow(deprecated)]
             let a = lib(ctx, "lax::functor::define_map_arrow(shim)", class, &input, || lax::functor::define_map_arrow(&lfun, &lx));
             let b = lib(ctx, "lax::Functor::map_arrow(dyn)", class, &input, || lfun.map_arrow(&lx));
             if let (Some(a), Some(b)) = (a, b) {
-                ctx.check(a == b, "lax::functor::define_map_arrow(shim)/same-as-dyn_functor/value/any", || json!({"input": input()}));
+                let strictify = |x: &LOh<u32, u64>| from_lax(x).ok().and_then(|pl| pl.strict().ok()).map(|x| x.0);
+                match (strictify(&a), strictify(&b)) {
+                    (Some(pa), Some(pb)) => {
+                        if ctx.check(pa.src_type() == pb.src_type() && pa.tgt_type() == pb.tgt_type(), "lax::functor::define_map_arrow(shim)/same-type-as-dyn_functor/value/any", || json!({"input": input()})) {
+                            expect_iso(ctx, "lax::functor::define_map_arrow(shim)", "same-as-dyn_functor", "any", &pa, &pb, &input);
+                        }
+                    }
+                    _ => {
+                        ctx.check(false, "lax::functor::define_map_arrow(shim)/quotientable/value/any", || json!({"input": input()}));
+                    }
+                }
             }
         }
         // identity functors
@@ -116,8 +150,15 @@ impl C12 {
         }
         if let Some(img) = lib(ctx, "lax::Identity::map_arrow", class, &input, || lax::functor::dyn_functor::Identity.map_arrow(&lx)) {
             if let Some(pl) = walk_lax(ctx, "lax::Identity::map_arrow", class, &img, &input) {
-                if let Ok((got, _)) = pl.strict() {
-                    expect_iso(ctx, "lax::Identity::map_arrow", "isomorphic-to-argument", class, &got, p, &input);
+                match pl.strict() {
+                    Ok((got, _)) => {
+                        if ctx.check(got.src_type() == p.src_type() && got.tgt_type() == p.tgt_type(), &format!("lax::Identity::map_arrow/type/value/{}", class), || json!({"input": input(), "observed": show(&got)})) {
+                            expect_iso(ctx, "lax::Identity::map_arrow", "isomorphic-to-argument", class, &got, p, &input);
+                        }
+                    }
+                    Err(_) => {
+                        ctx.check(false, &format!("lax::Identity::map_arrow/quotientable/value/{}", class), || json!({"input": input()}));
+                    }
                 }
             }
         }
@@ -173,7 +214,8 @@ fn corpus() -> Vec<(&'static str, FSpec, P)> {
         ("mixed_lengths_composite", FSpec { lens: [0, 1, 3], distinct_images: true, op: 1 }, d.clone()),
         ("spider_only_images", FSpec { lens: [2, 1, 2], distinct_images: false, op: 2 }, d.clone()),
         ("scalars_and_isolated", FSpec { lens: [1, 2, 0], distinct_images: true, op: 3 }, d.clone()),
-        ("cyclic_argument", FSpec { lens: [2, 3, 1], distinct_images: true, op: 4 }, cyc),
+        ("cyclic_argument", FSpec { lens: [2, 3, 1], distinct_images: true, op: 5 }, cyc),
+        ("shared_boundary_images", FSpec { lens: [2, 1, 2], distinct_images: false, op: 4 }, d.clone()),
         ("empty_argument", FSpec { lens: [2, 2, 2], distinct_images: true, op: 0 }, P::empty()),
     ]
 }
@@ -207,6 +249,8 @@ impl Monitor for C12 {
             ("class:op_image_spider_only", 20),
             ("class:op_image_with_scalar_and_isolated_node", 20),
             ("class:op_image_mixed", 20),
+            ("class:op_image_on_shared_boundary", 20),
+            ("class:lax_argument_with_pending_unifications", 100),
             ("class:cyclic_diagram", 50),
             ("class:non_monogamous_diagram", 100),
             ("class:zero_arity_operation", 20),
